@@ -50,10 +50,14 @@ def cases(tier, seed):
             add('-(%s)' % a, None, ('neg', k))
             add('-%s' % a if not a.startswith('-') else '- %s' % a, None, ('neg', k))
     # ranges
-    bounds = ['0', '1', '3', '-2', '1.5', '"a"', 'true', 'nothing', '[1]', '5', '2', '10', '1e3', '-0']
+    bounds = ['0', '1', '3', '-2', '1.5', '"a"', 'true', 'nothing', '[1]', '5', '2', '10', '1e3', '-0',
+              '1e19', '2e19', '-1e19', '1e300', '-1e300', '9223372036854775807', '9223372036854775808', '-9223372036854775808', '10000001', '4294967296', '2147483648', '1e15', '9007199254740993']
     for a, b in itertools.product(bounds, bounds):
         add('[%s..%s]' % (a, b), None, ('range',))
     add('[1..10000001]', None, ('range',))
+    for a, b in [(1e19, 2e19), (-1e19, 1e19), (9.3e18, 9.4e18), (-9.4e18, -9.3e18), (1e300, 1e300), (-1e300, 1e300), (2**63, 2**63 + 4096), (1e19, 1e19), (5, 1e19), (-1e19, 5)]:
+        add('[lo..hi]', {'lo': a, 'hi': b}, ('range', 'huge'))
+        add('$count([lo..hi])', {'lo': a, 'hi': b}, ('range', 'huge'))
     add('[0..10000000]', None, ('range',))
     add('[1..1e10]', None, ('range',))
     add('[-1e15..1e15]', None, ('range',))
